@@ -12,7 +12,7 @@ CHECKS = {
   "explicit enumeration of operation sequences against a reference model and lock-step against the reference implementation"),
  "C07": ("model_checking",
   "Bounded exhaustive enumeration of (all 9450 configurations x boundary input lengths x worst-case patterns) plus edge configurations at 64 KiB / 200 KB, all strings over 4 symbols up to length 4 (6), gzip header lattices and preset dictionaries: deflateBound is queried on the configured stream, the output buffer has exactly that size with a guard page behind it, and one deflate(Z_FINISH) must return Z_STREAM_END. compress/compress2/compress_slice into compressBound likewise.",
-  "The bound is a claim over all inputs of a length; the patterns are the known worst cases (incompressible, flat, 9-bit literals, alternating). Known finding F5 (exact fit on raw streams returns Z_OK; shared with zlib-ng) is reported as KNOWN-FINDING.",
+  "The bound is a claim over all inputs of a length; the patterns are the known worst cases (incompressible, flat, 9-bit literals, alternating). Known finding F5 (exact fit on raw streams returns Z_OK) is tolerated only where zlib-ng, run on the same parameters, input and buffer size, answers Z_OK too; it is reported as KNOWN-FINDING.",
   TECH),
  "C10": ("model_checking",
   "Twin executions over the shared families: every CPU-feature mask (hook H1), allocator and output-buffer garbage, buffer misalignment, default allocator, reuse after reset with a different earlier history (compressor: two histories then the same payload; decoder: 30 earlier histories, then every short corpus stream incl. invalid ones reaching before their own start, against a fresh decoder) - all compared call by call with the reference execution; threads: a controlled scheduler (baton, sequentially consistent) runs 2-3 real threads with scheduling points at API call boundaries and at the library's CPU-feature probes and enumerates all schedules with at most 2 (3) preemptions (iterative preemption bounding: every schedule with k preemptions is run before any with k+1, so a cap leaves a completed bound, which the evidence reports per thread set), each thread compared with its solo run.",
@@ -23,7 +23,7 @@ CHECKS = {
   "Trusted: R2. Positions/configurations outside the families are not covered.",
   TECH),
  "C15": ("model_checking",
-  "Invariant monitor on every call of every execution of the shared families (cursor/avail/total accounting, Z_BUF_ERROR rule), decode under three schedules with 0..3 trailing garbage bytes (consumed == stream length), the same chunkings through the Rust wrappers, one-shot helper lengths, and explicit enumeration to depth 4 (5) of inflate programs with inflateSync/prime/validate with totals compared with the sums after every call.",
+  "Invariant monitor on every call of every execution of the shared families incl. the every-length x every-bit-alignment sweep (cursor/avail/total accounting; Z_BUF_ERROR rule with a model of zlib's flush ranking: a call without input whose flush ranks above the previous call's must not answer Z_BUF_ERROR when it has room - all ordered pairs of flush kinds are scheduled), decode under three schedules with 0..3 trailing garbage bytes (consumed == stream length), the same chunkings through the Rust wrappers, one-shot helper lengths, and explicit enumeration to depth 4 (5) of inflate programs with inflateSync/prime/validate with totals compared with the sums after every call.",
   "Totals after Z_NEED_DICT are not judged (zlib is self-inconsistent there).",
   TECH),
  "C18": ("fault_enumeration",
@@ -40,14 +40,14 @@ CHECKS = {
   "explicit enumeration of API programs up to a depth bound, lock-step conformance against the reference implementation"),
  "C06": ("model_checking",
   "Explicit enumeration of ALL call sequences up to depth 3 (4) over a 47-operation alphabet of the compression API (deflate with every flush value and boundary buffer sizes, params, tune, prime, dictionary, header, pending, bound, reset, reset-keep, copy, get-dictionary, end) on a lattice of configurations incl. illegal ones, each finished by the Finish tail; the same through the safe Rust wrappers under catch_unwind; long repetitions of single operations; C01's schedule families re-run with guard pages in both placements. Oracle: no signal/panic, documented status, cursors in bounds, hook-H3 structural invariants after every call, Finish reaches stream end within the call cap.",
-  "Trusted: hook H3 (read-only). deflatePrime is only issued before the first deflate call (its documented precondition). Known finding F2 (deflateResetKeep with unconsumed lookahead, shared with zlib-ng) is reported as KNOWN-FINDING.",
+  "Trusted: hook H3 (read-only). deflatePrime and deflateSetHeader are only issued before the first deflate call (their documented precondition; C16 covers the misuse). Known finding F2 (deflateResetKeep with unconsumed lookahead, shared with zlib-ng) is reported as KNOWN-FINDING.",
   "explicit enumeration of operation sequences up to a depth bound over the real code, invariant checking"),
  "C19": ("model_checking",
   "Raw corpus streams with every truncation and bit flip and all short strings x windowBits 8..15 x input-callback slicings (all compositions for <= 9 bytes, every single split, 1-byte slices, end-of-input at every position) x output-callback abort at every index, window and slices in guard-paged arenas; safety on everything, and equality with inflate (bytes, verdict, unused input) wherever the strict reference decoder finds all back-references inside min(window, produced bytes).",
   "Trusted: R2. For references into the unwritten part of the caller's window only safety/termination are required.",
   TECH),
  "C02": ("model_checking",
-  "Bounded exhaustive exploration of the decoder on untrusted bytes: the whole R4 corpus with every truncation / single-bit flip / trailing garbage and all strings <= 2 (3) bytes, through streaming inflate under boundary schedules (0-/1-byte buffers, fast-path thresholds), uncompress/uncompress2, the Rust wrappers and header capture, every buffer in guard-paged arenas in both placements and state in a guard-paged garbage-filled allocator; a signal is attributed to the case by the explorer. Oracle: no crash/panic, documented status, cursors in bounds, bounded calls, progress.",
+  "Bounded exhaustive exploration of the decoder on untrusted bytes (incl. inflateBack on every raw string, every position of the output-room end for intact streams, a (literal, literal, longest match) triple at every output position 0..530 and around every window size): the whole R4 corpus with every truncation / single-bit flip / trailing garbage and all strings <= 2 (3) bytes, through streaming inflate under boundary schedules (0-/1-byte buffers, fast-path thresholds), uncompress/uncompress2, the Rust wrappers and header capture, every buffer in guard-paged arenas in both placements and state in a guard-paged garbage-filled allocator; a signal is attributed to the case by the explorer. Oracle: no crash/panic, documented status, cursors in bounds, bounded calls, progress.",
   "Trusted: the harness; guard pages see every access beyond a buffer end/start but not overruns inside one allocation smaller than the allocator slack. Not covered: multi-fault corruptions, strings outside the corpus.",
   TECH),
  "C03": ("model_checking",
@@ -59,15 +59,15 @@ CHECKS = {
   "Trusted: hook H2 (read-only), the harness. Not covered: more than one split on streams > 12 bytes, streams outside the corpus.",
   "bounded exhaustive enumeration of call schedules, differential against the one-call execution"),
  "C08": ("model_checking",
-  "Valid zlib/gzip streams (corpus + encoder-produced up to 200 KB) x all 255 alternative values of every header byte and of the last 12 bytes, every bit flip elsewhere (lattice on long streams) x schedules incl. 1-byte calls and 32767..32769-byte output rooms; whenever Z_STREAM_END is returned the consumed trailer must equal the R1 checksum/length of the bytes actually output and a FHCRC header must verify.",
+  "Histories (every sequence of <= 3 (4) operations over inflate shapes / inflateSync / inflateValidate / inflateReset / inflateReset2, then a reset and the stream again with each trailer byte damaged, judged by a one-flag model of 'checking enabled'); valid zlib/gzip streams (corpus + encoder-produced up to 200 KB) x all 255 alternative values of every header byte and of the last 12 bytes, every bit flip elsewhere (lattice on long streams) x schedules incl. 1-byte calls and 32767..32769-byte output rooms; whenever Z_STREAM_END is returned the consumed trailer must equal the R1 checksum/length of the bytes actually output and a FHCRC header must verify.",
   "Trusted: R1. Corruptions of fields the format does not protect (MTIME/XFL/OS/name without FHCRC) are accepted by design and counted separately.",
   TECH),
  "C01": ("model_checking",
-  "Bounded exhaustive exploration of the real encoder+decoder: every (configuration x input x call schedule) of the tiny / shape / big families (all strings over small alphabets, boundary-forcing inputs for 512-byte windows and 127-symbol blocks, > 2 windows at 32 KiB; every single deviation from the default schedule: split position, flush kind, output room, parameter change, plus selected double deviations). Every stream is decoded by zlib-rs under three schedules and by the independent reference decoder R2+R3 and compared with the input.",
+  "Bounded exhaustive exploration of the real encoder+decoder: every (configuration x input x call schedule) of the tiny / shape / big / sweep families (sweep: every input length 0..1100 (2300) x 3 data kinds x 17 small configurations x 7 schedules, and every bit alignment of the stream end for every length; shape: incl. a maximal-distance match planted where the window first slides, skewed Fibonacci histograms forcing code-length limiting) (all strings over small alphabets, boundary-forcing inputs for 512-byte windows and 127-symbol blocks, > 2 windows at 32 KiB; every single deviation from the default schedule: split position, flush kind, output room, parameter change, plus selected double deviations). Every stream is decoded by zlib-rs under three schedules and by the independent reference decoder R2+R3 and compared with the input.",
   "Trusted: reference decoder R2/R3 (cross-validated against zlib-ng at start-up), the harness. Not covered: inputs/configs/schedules outside the families.",
   TECH),
  "C05": ("model_checking",
-  "Same bounded exhaustive (configuration x input x schedule) families as C01; every emitted stream is checked by the strict reference: RFC 1950/1952 header and trailer rules (R3) and a strict RFC 1951 decode limited to the announced window (R2) that must reproduce the input.",
+  "Same bounded exhaustive (configuration x input x schedule) families as C01 (tiny / shape / big / every-length and bit-alignment sweep); every emitted stream is checked by the strict reference: RFC 1950/1952 header and trailer rules (R3) and a strict RFC 1951 decode limited to the announced window (R2) that must reproduce the input.",
   "Trusted: R2 strict mode, R3. Not covered: streams for histories outside the families.",
   TECH),
  "C12": ("model_checking",
@@ -79,7 +79,7 @@ CHECKS = {
   "Trusted: R7 history model, R1-R3. Known finding F1 (stale window after the trailer-verifying call, zlib-compatible) is reported as KNOWN-FINDING.",
   TECH),
  "C20": ("model_checking",
-  "Bounded exhaustive lattice of gzip header contents x memLevel (pending buffer smaller/larger than the header) x output rooms on the write side, parsed back by the reference R3; on the read side R3-built headers x input chunkings (one call, 1-byte pieces, every single split) x capture capacities {NULL,0,1,len-1,len,len+1} in guard-paged buffers, compared field by field with the R3 parse.",
+  "Bounded exhaustive lattice of gzip header contents x memLevel (pending buffer smaller/larger than the header) x output rooms on the write side, parsed back by the reference R3; on the read side R3-built headers x input chunkings (one call, 1-byte pieces, every single split) x capture capacities {NULL,0,1,len-1,len,len+1} in guard-paged buffers, compared field by field with the R3 parse; every write-side row is also continued on a deflateCopy taken after the first / second call.",
   "Trusted: R3 (RFC 1952 writer/parser). Field lengths outside the lattice are not covered.",
   TECH),
  "C09": ("model_checking",
